@@ -11,7 +11,7 @@ EXTENDS JsonEnc, JsonText, Scanner, Universe, Json, TLC
 CONSTANTS Level, EmitOn
 
 Awkward == { Str(<<60,62,38>>), Str(<<8232, 8233>>), Str(<<34, 92, 47>>), Str(<<1, 8, 9, 10, 12, 13, 31, 127>>),
-             Str(<<233, 8364, 128512>>), Str(<<>>), Str(<<65533>>),
+             Str(<<233, 8364, 128512>>), Str(<<>>), Str(<<65533>>), Str(<<8361, 8744, 8232>>),
              Obj(<<Mem(<<60>>, Str(<<38>>)), Mem(<<34>>, Null), Mem(<<>>, N1)>>),
              Obj(<<Mem(cb, N1), Mem(ca, Obj(<<Mem(cb, N1), Mem(ca, N10)>>)), Mem(<<65>>, Arr(<<>>))>>),
              Num(<<45,48>>), Num(<<49,101,52,48,48>>), Num(<<49,69,43,50>>), Num(<<48,46,49,48>>), Num(<<45,49,46,53,101,45,55>>),
@@ -45,6 +45,10 @@ Emit ==
   IF EmitOn THEN
     PrintT(ToJson([fam |-> "enc", v |-> v, text |-> Enc(v, FALSE),
                    sortedesc |-> Enc(SortKeys(v), TRUE), sortedraw |-> Enc(SortKeys(v), FALSE),
-                   keys |-> IF v.t = "obj" THEN Keys(v) ELSE <<>>]))
+                   keys |-> IF v.t = "obj" THEN Keys(v) ELSE <<>>,
+                   \* Encoder.SetIndent(prefix, indent): prefix only, indent only, both
+                   indp |-> Indent(Enc(SortKeys(v), FALSE), <<62>>, <<>>).out,
+                   indi |-> Indent(Enc(SortKeys(v), FALSE), <<>>, <<9>>).out,
+                   indb |-> Indent(Enc(SortKeys(v), FALSE), <<62, 62>>, <<32>>).out]))
   ELSE TRUE
 =============================================================================
